@@ -38,7 +38,8 @@ impl WalCleaner {
             );
 
             // Archive WAL files before deletion
-            let archiver = WalArchiver::new(self.shard_id);
+            // Archive from the directory this cleaner deletes from
+            let archiver = WalArchiver::new(self.shard_id).with_wal_dir(self.wal_dir.clone());
             let archive_results = archiver.archive_logs_up_to(keep_from_log_id);
 
             // Count successes and failures
